@@ -66,3 +66,9 @@ def hashPieces (seed : UInt64) (pieces : List (List UInt8)) : UInt64 :=
   pieces.foldl (fun h p => hash64A p h) seed
 
 end PV.Murmur
+
+namespace PV.Murmur
+/-- the key of the case model written by train_case (Recorder::Add) and looked up by apply_case:
+    `MurmurHash64A(lowered_target, MurmurHash64A(source))` (default seed 0 for the inner call). -/
+def caseKey (source lowered : List UInt8) : UInt64 := hash64A lowered (hash64A source 0)
+end PV.Murmur
